@@ -68,6 +68,15 @@ def build(rec):
         return Line(Vm(rec[1]), Vm(rec[2]))
     if k == 'HalfLine/PV':
         return HalfLine(Pm(rec[1]), Vm(rec[2]))
+    if k == 'HalfLine/PnegnegV':
+        # the same direction obtained by negating the opposite vector (zero components become -0.0)
+        return HalfLine(Pm(rec[1]), -Vm(X.neg(rec[2])))
+    if k == 'Line/PnegnegV':
+        return Line(Pm(rec[1]), Vm(X.neg(rec[2])) * -1)
+    if k == 'Vector/negneg':
+        return -Vm(X.neg(rec[1]))
+    if k == 'Point/negzero':
+        return Point(*[(-0.0 if c == 0 else num(c, 'float')) for c in rec[1]])
     if k == 'HalfLine/PP':
         return HalfLine(Pm(rec[1]), Pm(rec[2]))
     if k == 'Segment/PP':
@@ -120,8 +129,14 @@ def den(rec):
         return X.Ln(rec[1], rec[2])
     if k == 'Line/PP':
         return X.Ln(rec[1], X.sub(rec[2], rec[1]))
-    if k == 'HalfLine/PV':
+    if k in ('HalfLine/PV', 'HalfLine/PnegnegV'):
         return X.Hl(rec[1], rec[2])
+    if k == 'Line/PnegnegV':
+        return X.Ln(rec[1], rec[2])
+    if k == 'Vector/negneg':
+        return ('Vector', tuple(rec[1]))
+    if k == 'Point/negzero':
+        return X.Pt(rec[1])
     if k == 'HalfLine/PP':
         return X.Hl(rec[1], X.sub(rec[2], rec[1]))
     if k == 'Segment/PP':
@@ -313,6 +328,7 @@ def line_group(p, d):
     reps.append(('Line/PP', p, X.add(p, d), 'float'))
     reps.append(('Line/PP', X.add(p, X.scal(2, d)), X.sub(p, d), 'float'))
     reps.append(('Line/VV', p, d, 'float'))
+    reps.append(('Line/PnegnegV', p, d, 'float'))
     reps.append(('Line/PV', p, d, 'Fraction'))
     reps.append(('Line/PV', p, d, 'int'))
     reps.append(('moveback', ('Line/PV', p, d, 'float'), MOVES[0], 'receiver'))
@@ -337,6 +353,7 @@ def halfline_group(p, d):
     reps.append(('HalfLine/PP', p, X.add(p, d), 'float'))
     reps.append(('HalfLine/PP', p, X.add(p, X.scal(3, d)), 'float'))
     reps.append(('HalfLine/PV', p, d, 'Fraction'))
+    reps.append(('HalfLine/PnegnegV', p, d, 'float'))
     reps.append(('moveback', ('HalfLine/PV', p, d, 'float'), MOVES[0], 'receiver'))
     reps.append(('moveback', ('HalfLine/PV', p, d, 'float'), MOVES[1], 'returned'))
     reps.append(('deepcopy', ('HalfLine/PV', p, d, 'float')))
@@ -402,12 +419,12 @@ def plane_group(p, n):
 
 def point_group(p, kind):
     if kind == 'Point':
-        reps = [('Point', p, 'float'), ('Point', p, 'Fraction'), ('Point', p, 'int'), ('Point/list', p, 'float'), ('Point/vector', p, 'float'),
+        reps = [('Point', p, 'float'), ('Point', p, 'Fraction'), ('Point', p, 'int'), ('Point/list', p, 'float'), ('Point/vector', p, 'float'), ('Point/negzero', p, 'float'),
                 ('moveback', ('Point', p, 'float'), MOVES[0], 'receiver'), ('moveback', ('Point', p, 'float'), MOVES[1], 'returned'),
                 ('deepcopy', ('Point', p, 'float')), moved_from(('Point', p, 'float'), MOVES[0]), moved_from(('Point', p, 'float'), MOVES[1], 'returned')]
         nears = [('Point', X.add(p, X.scal(k, E[i])), 'float') for i in range(3) for k in (F(1, 64), F(-1, 1024))]
     else:
-        reps = [('Vector', p, 'float'), ('Vector', p, 'Fraction'), ('Vector', p, 'int'), ('Vector/PP', (1, 2, 3), X.add((1, 2, 3), p), 'float'),
+        reps = [('Vector', p, 'float'), ('Vector', p, 'Fraction'), ('Vector', p, 'int'), ('Vector/PP', (1, 2, 3), X.add((1, 2, 3), p), 'float'), ('Vector/negneg', p, 'float'),
                 ('deepcopy', ('Vector', p, 'float'))]
         nears = [('Vector', X.add(p, X.scal(k, E[i])), 'float') for i in range(3) for k in (F(1, 64), F(-1, 1024))]
     return (kind, tuple(reps), tuple(nears))
